@@ -1,8 +1,9 @@
 (* C07: the hydro task graph make_graph (model of make_hydro_tasks / set_dependencies / reset_hydro_tasks).
-   - wf (make_graph Y) for every layout up to 4 x 4 x 4 (all 8 periodicities) without a periodic axis of exactly
-     one subgrid: by evaluation of wf_check inside the kernel (vm_compute) + wf_check_sound   [bounded, "partial"];
-   - the defect D2: with a periodic axis of exactly one subgrid the pair task takes the same lock twice, the
-     graph is not well formed, and in the interleaving model that task is never started, for any schedule;
+   make_graph true = the code with the fix of D2, make_graph false = the pinned commit.
+   - wf (make_graph true Y) for EVERY layout up to 4 x 4 x 4 and all 8 periodicities (512 graphs, including a periodic
+     axis of one subgrid): by evaluation of wf_check inside the kernel (vm_compute) + wf_check_sound [bounded, "partial"];
+   - the defect D2 of the pinned commit: with a periodic axis of exactly one subgrid the pair task takes the same lock
+     twice, the graph is not well formed, and in the interleaving model that task is never started, for any schedule;
    - the counter protocol lets a thread leave the loop early (number_of_tasks is transiently 0): a concrete schedule. *)
 From Coq Require Import Arith List Bool PeanoNat Lia.
 From CMI Require Import Cxx.C07_Defs Cxx.C07_Base Cxx.C07_Proofs.
@@ -29,41 +30,42 @@ Proof.
 Qed.
 
 Lemma check_upto_sound : forall b, check_upto b = true ->
-  forall Y, In Y (layouts_upto b) -> self_neighbour Y = false -> wf (make_graph Y).
+  forall Y, In Y (layouts_upto b) -> wf (make_graph true Y).
 Proof.
-  intros b C Y HY HS. unfold check_upto in C. rewrite forallb_forall in C. specialize (C Y HY).
-  unfold check_layout in C. rewrite HS in C. simpl in C. apply wf_check_sound; auto.
+  intros b C Y HY. unfold check_upto in C. rewrite forallb_forall in C. specialize (C Y HY).
+  unfold check_layout in C. apply wf_check_sound; auto.
 Qed.
 
-Lemma no_self : forall x y z px py pz, (px = true -> x <> 1) -> (py = true -> y <> 1) -> (pz = true -> z <> 1) ->
-  self_neighbour (mkLayout x y z px py pz) = false.
-Proof.
-  intros x y z px py pz Hx Hy Hz. unfold self_neighbour. cbn [lnx lny lnz lpx lpy lpz].
-  assert (A : forall p v, (p = true -> v <> 1) -> p && (v =? 1) = false).
-  { intros p v H. destruct p; simpl; auto. apply Nat.eqb_neq; auto. }
-  rewrite (A px x Hx), (A py y Hy), (A pz z Hz). reflexivity.
-Qed.
-
-(* positive statement, conditional on "no periodic axis has exactly one subgrid", layouts up to BOUND^3 *)
+(* the repaired code: every layout and periodicity up to BOUND^3, no side condition *)
 Theorem make_graph_wf_partial : forall Y,
-  1 <= lnx Y <= BOUND -> 1 <= lny Y <= BOUND -> 1 <= lnz Y <= BOUND ->
-  (lpx Y = true -> lnx Y <> 1) -> (lpy Y = true -> lny Y <> 1) -> (lpz Y = true -> lnz Y <> 1) ->
-  wf (make_graph Y).
+  1 <= lnx Y <= BOUND -> 1 <= lny Y <= BOUND -> 1 <= lnz Y <= BOUND -> wf (make_graph true Y).
 Proof.
-  intros [x y z px py pz] Hx Hy Hz Px Py Pz. cbn [lnx lny lnz lpx lpy lpz] in *.
-  apply (check_upto_sound BOUND check_upto_bound).
-  - apply In_layouts_upto; auto.
-  - apply no_self; auto.
+  intros [x y z px py pz] Hx Hy Hz. cbn [lnx lny lnz lpx lpy lpz] in *.
+  apply (check_upto_sound BOUND check_upto_bound). apply In_layouts_upto; auto.
 Qed.
 
-(* ------------------------------------------------------------------ defect D2 *)
+(* a pair task of a subgrid with itself (one subgrid on a periodic axis) has ONE lock, the lock of the only subgrid it
+   touches - the same lock every other task of that subgrid takes, so C07_mutual_exclusion covers it *)
+Definition self_pairs_ok (g : graph) : bool :=
+  forallb (fun t => match other t with
+                    | Some o => if o =? sub t
+                                then match dep0 t, dep1 t with Some a, None => a =? sub t | _, _ => false end
+                                else true
+                    | None => true
+                    end
+                    && match dep0 t with Some a => (a =? sub t) || (match other t with Some o => a =? o | None => false end) | None => false end) g.
+Lemma self_pairs_single_lock :
+  forallb (fun Y => self_pairs_ok (make_graph true Y)) (layouts_upto 3) = true.
+Proof. vm_cast_no_check (eq_refl true). Qed.
+
+(* ------------------------------------------------------------------ defect D2 (pinned commit: make_graph false) *)
 Definition Y_self : layout := mkLayout 1 2 2 true false false.
 
-Lemma self_task_same_lock : dep0 (tk (make_graph Y_self) 1) = Some 0 /\ dep1 (tk (make_graph Y_self) 1) = Some 0
-  /\ 1 < length (make_graph Y_self) /\ kind (tk (make_graph Y_self) 1) = GN.
+Lemma self_task_same_lock : dep0 (tk (make_graph false Y_self) 1) = Some 0 /\ dep1 (tk (make_graph false Y_self) 1) = Some 0
+  /\ 1 < length (make_graph false Y_self) /\ kind (tk (make_graph false Y_self) 1) = GN.
 Proof. repeat split; try (vm_compute; reflexivity). vm_compute. lia. Qed.
 
-Theorem self_neighbour_refuted : exists Y, 1 <= lnx Y /\ 1 <= lny Y /\ 1 <= lnz Y /\ ~ wf (make_graph Y).
+Theorem self_neighbour_refuted : exists Y, 1 <= lnx Y /\ 1 <= lny Y /\ 1 <= lnz Y /\ ~ wf (make_graph false Y).
 Proof.
   exists Y_self. repeat split; simpl; try lia. intros W.
   destruct self_task_same_lock as [D0 [D1 [L _]]].
@@ -73,14 +75,14 @@ Qed.
 (* in the model the x-pair gradient task of subgrid 0 is never started, whatever the threads do:
    the hydro step never completes *)
 Theorem self_neighbour_never_completes : forall n sched,
-  ~ In (EStart 1) (log (exec (make_graph Y_self) (init (make_graph Y_self) n) sched)).
+  ~ In (EStart 1) (log (exec (make_graph false Y_self) (init (make_graph false Y_self) n) sched)).
 Proof.
   intros. destruct self_task_same_lock as [D0 [D1 _]]. eapply same_lock_never_starts; eauto.
 Qed.
 
-(* every layout with a periodic axis of one subgrid is rejected by wf_check (up to the bound) *)
+(* pinned commit: every layout with a periodic axis of one subgrid is rejected by wf_check (up to 3x3x3) *)
 Lemma self_neighbour_all_rejected :
-  forallb (fun Y => negb (self_neighbour Y) || negb (wf_check (make_graph Y))) (layouts_upto 3) = true.
+  forallb (fun Y => negb (self_neighbour Y) || negb (wf_check (make_graph false Y))) (layouts_upto 3) = true.
 Proof. vm_cast_no_check (eq_refl true). Qed.
 
 (* ------------------------------------------------------------------ early exit *)
@@ -95,7 +97,7 @@ Definition early_sched : list label :=
 Definition stoppedb (s : state) (t : nat) : bool := existsb (ev_eqb (EStop t)) (log s).
 
 Lemma early_exit_possible :
-  let g := make_graph Y_one in
+  let g := make_graph true Y_one in
   let s := exec g (init g 2) early_sched in
   wf g /\ nth 1 (pcs s) Exited = Exited /\ nth 0 (pcs s) Exited = Inc 8 0 /\ ntasks s = 0
   /\ stoppedb s 9 = true /\ stoppedb s 10 = false /\ stoppedb s 17 = false.
@@ -109,13 +111,20 @@ Definition finish_sched : list label :=
   blk 0 8 30 ++ blk 0 10 12 ++ blk 0 11 12 ++ blk 0 12 12 ++ blk 0 13 12 ++ blk 0 14 12 ++ blk 0 15 12 ++
   blk 0 16 12 ++ blk 0 17 12 ++ blk 0 17 3.
 Lemma early_exit_still_completes :
-  let g := make_graph Y_one in
+  let g := make_graph true Y_one in
   let s := exec g (init g 2) (early_sched ++ finish_sched) in
   pcs s = [Exited; Exited] /\ forallb (stoppedb s) (seq 0 (length g)) = true /\ length (log s) = 36.
 Proof. vm_compute. repeat split; reflexivity. Qed.
 
-(* the hypotheses of the generic theorems are satisfiable *)
-Example wf_2x2x2_periodic : wf (make_graph (mkLayout 2 2 2 true true true)).
-Proof. apply make_graph_wf_partial; simpl; unfold BOUND; try lia; discriminate. Qed.
-Example wf_3x1x2_mixed : wf (make_graph (mkLayout 3 1 2 true false true)).
-Proof. apply make_graph_wf_partial; simpl; unfold BOUND; try lia; discriminate. Qed.
+(* the hypotheses of the generic theorems are satisfiable; the D2 witness is now well formed, and the same task
+   that could never start has a single lock *)
+Example wf_2x2x2_periodic : wf (make_graph true (mkLayout 2 2 2 true true true)).
+Proof. apply make_graph_wf_partial; simpl; unfold BOUND; lia. Qed.
+Example wf_3x1x2_mixed : wf (make_graph true (mkLayout 3 1 2 true false true)).
+Proof. apply make_graph_wf_partial; simpl; unfold BOUND; lia. Qed.
+Example wf_D2_witness_fixed : wf (make_graph true Y_self).
+Proof. apply make_graph_wf_partial; simpl; unfold BOUND; lia. Qed.
+Example D2_witness_fixed_task : let t := tk (make_graph true Y_self) 1 in
+  kind t = GN /\ sub t = 0 /\ other t = Some 0 /\ dep0 t = Some 0 /\ dep1 t = None /\ locks t = [0] /\ touches t = [0; 0]
+  /\ locks (tk (make_graph true Y_self) 0) = [0].
+Proof. vm_compute. repeat split; reflexivity. Qed.
